@@ -21,6 +21,19 @@ def run (α : Type) [Scalar α] [Codec α] (op : String) (c : Ctx) : Option (Rd 
       let R2 : M3 α ← rdM3 c
       let m := Poly2.planarMoments vs R
       pure s!"{Out.sc (Poly2.signedArea vs n)} {Out.sc (Poly2.area vs n)} {Out.sc (Poly2.perimeter vs)} {Out.v3 (Poly2.centroid vs n R)} {Out.sc m.1} {Out.sc m.2.1} {Out.sc m.2.2} {Out.sc (Poly2.polarMoment vs R)} {Out.m3 (Poly2.inertiaTensor vs n R R2)}"
+  | "polygon.queries" => some do
+      -- the object as a state machine: a HISTORY of reads in the order given (codes 0..7 = signed_area, area,
+      -- perimeter, centroid, planar, polar, inertia_tensor [temporary frame + restore], center)
+      -- in: verts, normal, R, R2, list of query codes ; out: the answers in that order (flattened), then the state
+      -- the object is left in: normal(3), verts(3N)
+      let vs : List (V3 α) ← Rd.list c (Rd.v3 c)
+      let n : V3 α ← Rd.v3 c
+      let R : M3 α ← rdM3 c
+      let R2 : M3 α ← rdM3 c
+      let qs : List Nat ← Rd.list c (Rd.nat c)
+      let r := PolyState.observeAll (qs.map PolyState.Query.ofCode) ⟨vs, n⟩ R R2
+      let vals := r.2.foldr (· ++ ·) []
+      pure s!"{Out.scs vals} {Out.v3 r.1.normal} {" ".intercalate (r.1.verts.map Out.v3)}"
   | "polygon.rational" => some do
       -- rational part only (usable in Q mode when n = ±z and R is a signed permutation):
       -- in: verts, normal, R ; out: signedArea centroid(3) ix iy ixy
@@ -33,6 +46,12 @@ def run (α : Type) [Scalar α] [Codec α] (op : String) (c : Ctx) : Option (Rd 
       -- in: triangles (xy used) ; out: area first0 first1 second00 second11 second01
       let Ts : List (Tri α) ← Rd.list c (Rd.tri c)
       pure s!"{Out.sc (Spec2.area Ts)} {Out.sc (Spec2.first Ts 0)} {Out.sc (Spec2.first Ts 1)} {Out.sc (Spec2.second Ts 0 0)} {Out.sc (Spec2.second Ts 1 1)} {Out.sc (Spec2.second Ts 0 1)}"
+  | "cert.planar" => some do
+      -- certificates (meant for Q mode = exact): in: vertex cycle, triangles ;
+      -- out: triangulationCheck orientCheck flatCheck   (soundness: Lemmas/PlanarCert.lean, Props/C04 certified_*)
+      let w : List (V3 α) ← Rd.list c (Rd.v3 c)
+      let Ts : List (Tri α) ← Rd.list c (Rd.tri c)
+      pure s!"{Out.bool (Spec2.triangulationCheck w Ts)} {Out.bool (Spec2.orientCheck Ts)} {Out.bool (Spec2.flatCheck w Ts)}"
   | _ => none
 
 end OpsC04
